@@ -21,9 +21,9 @@ def run(ctx):
         ctx.guard("C19", "fnv-forms", lambda: fold.primitive_forms(ctx, prog, "PartialFNVHash"))
         ctx.guard("C19", "roll-forms", lambda: fold.primitive_forms(ctx, prog, "RollingHash"))
         ctx.guard("C19", "roll-step", lambda: rolling.step_shape(ctx, prog))
+        ctx.guard("C19", "traits", lambda: vis.trait_census(ctx, prog, scope='hashes::'))
         ctx.guard("C19", "summaries", lambda: summary.check(ctx, prog, 'generate::hashes::', floor=6))
         ctx.guard("C19", "path summaries", lambda: summary.check_paths(ctx, prog, 'generate::hashes::', floor=0))
         if c in ("dbg", "unsafe_dbg", "strict_dbg"):
             ctx.guard("C19", "beliefs", lambda: beliefs.census(ctx, prog, beliefs.SCOPES["C19"][0], floor=beliefs.SCOPES["C19"][1]))
-        ctx.guard("C19", "traits", lambda: vis.trait_census(ctx, prog, scope='hashes::'))
     return ctx.finish(EXPL, ["u32 wrapping_* methods have their documented meaning", "rustc's const evaluation of FNV_TABLE"])
